@@ -660,12 +660,16 @@ structure Reopened where
   inst : Option Inst
 deriving Repr
 
+/-- before the repair of KF-C12-RF64-ODD-PAD: rf64_read_header did not skip the pad byte that follows an odd number of audio bytes, so
+    the LIST chunk behind the audio of such a file was not found again -/
+def trailerFoundOld (h : MetaState) : Bool := !(h.cont = .rf64 && h.audio.length % 2 = 1)
+
 def reopen (period : Nat) (h : MetaState) : Reopened :=
   { strings := (if (h.strings.flags &&& SF_STR_LOCATE_START) ≠ 0 ∧ locationCount h.strings SF_STR_LOCATE_START ≠ 0
                 then parseInfo (writeStrings h.strings SF_STR_LOCATE_START) else []) ++
-               -- the trailing LIST: rf64_read_header does not skip the pad byte that follows an odd number of audio bytes
-               (if (h.strings.flags &&& SF_STR_LOCATE_END) ≠ 0 ∧ locationCount h.strings SF_STR_LOCATE_END ≠ 0 ∧
-                   ¬ (h.cont = .rf64 ∧ h.audio.length % 2 = 1)
+               -- the trailing LIST (rf64_read_header skips the pad byte behind an odd number of audio bytes since the repair of
+               -- KF-C12-RF64-ODD-PAD; the rule before it is `trailerFoundOld` below)
+               (if (h.strings.flags &&& SF_STR_LOCATE_END) ≠ 0 ∧ locationCount h.strings SF_STR_LOCATE_END ≠ 0
                 then parseInfo (writeStrings h.strings SF_STR_LOCATE_END) else []),
     bext := h.bext.bind fun b => readBext (writeBext b),
     cart := h.cart.bind fun c => readCart (writeCart c),
